@@ -19,8 +19,8 @@ Section ConcWf.
 
   Definition MOk (sl : list (pos * selem)) (m : mop) : Prop :=
     match m with
-    | MRead p _ _ _ => NodePos sl p
-    | MWrite p i cand _ => NodePos sl p /\ is_some cand = child_is_node g p i
+    | MRead p _ _ _ _ => NodePos sl p
+    | MWrite p i _ cand _ => NodePos sl p /\ is_some cand = child_is_node g p i
     | MData p _ => NodePos sl p
     | MTearSlot _ _ _ => False
     | _ => True
@@ -73,10 +73,10 @@ Section ConcWf.
     intros NP. induction n as [|n IH]; intros j; cbn [iter_to get_or_add app]; constructor; auto.
   Qed.
 
-  Lemma MOk_flat sl p l : NodePos sl p -> Forall (MOk sl) (flat_map (fun j => get_or_add p j false) l).
+  Lemma MOk_flat sl p l : NodePos sl p -> Forall (MOk sl) (flat_map (fun j => get_or_add p j RIter false) l).
   Proof. intros NP. induction l as [|a l IH]; cbn [flat_map get_or_add app]; constructor; auto. Qed.
 
-  Lemma MOk_single sl p i keep : NodePos sl p -> Forall (MOk sl) (get_or_add p i keep).
+  Lemma MOk_single sl p i rt keep : NodePos sl p -> Forall (MOk sl) (get_or_add p i rt keep).
   Proof. intros NP. cbn [get_or_add]. constructor; [exact NP|constructor]. Qed.
 
   Lemma expand_MOk sl t o : SlotsOk sl -> THOk sl t -> Forall (MOk sl) (fst (expand g t o)).
@@ -159,7 +159,7 @@ Section ConcWf.
     { eapply Forall_impl; [|exact HC]. intros x. apply Forall_MOk_mono. exact M. }
     destruct t as [regs prog cont out]. cbn [t_cont] in Hc. subst cont.
     revert NT' M Others.
-    destruct m as [p i first keep|p i cand keep|delta after|h|r|r report|tb p i|p o]; cbn [exec_mop].
+    destruct m as [p i rt first keep|p i off cand keep|delta after|h|r|r report|tb p i|p o]; cbn [exec_mop].
     - (* MRead *)
       destruct (slot_lookup (c_slots s) (i :: p)) as [e|] eqn:L; [|destruct (child_is_node g p i) eqn:CN];
         cbn [fst upd_thread c_slots c_torn c_threads c_data t_cont]; intros _ M Others;
